@@ -81,7 +81,7 @@ def make_coord(kind: str, n: int, start: int = 0, perm_seed: int | None = None):
 # matrices
 # ----------------------------------------------------------------------------------------------
 def make_matrix(seed: int, S: int, F: int, ratio: float, scale: float, offset: float,
-                complex_: bool = False) -> np.ndarray:
+                complex_: bool = False, noise: float = 1e-3) -> np.ndarray:
     rng = np.random.default_rng(seed)
     r = max(1, min(S - 1, F))
     A = rng.standard_normal((S, r))
@@ -92,10 +92,11 @@ def make_matrix(seed: int, S: int, F: int, ratio: float, scale: float, offset: f
     s = 10.0 * ratio ** np.arange(r)
     M = scale * (U * s) @ V.T
     # small full-rank noise floor so that nothing is exactly singular
-    M = M + scale * 1e-3 * rng.standard_normal((S, F))
+    if noise:
+        M = M + scale * noise * rng.standard_normal((S, F))
     M = M + offset * (1.0 + 0.1 * rng.standard_normal(F))[None, :]
     if complex_:
-        M2 = make_matrix(seed + 7919, S, F, ratio, scale, 0.0, False)
+        M2 = make_matrix(seed + 7919, S, F, ratio, scale, 0.0, False, noise)
         M = M + 1j * M2
     return M
 
@@ -118,7 +119,7 @@ def build(desc: dict) -> Any:
     S = int(np.prod(ssizes))
     Fs = [int(np.prod(_dims_sizes(f)[1])) for f in fields]
     M = make_matrix(desc["seed"], S, int(sum(Fs)), desc.get("ratio", 0.6), desc.get("scale", 1.0),
-                    desc.get("offset", 1.0), desc.get("complex", False))
+                    desc.get("offset", 1.0), desc.get("complex", False), desc.get("noise", 1e-3))
     start = desc.get("start", 0)
     perm = desc.get("perm_seed")
     out = []
